@@ -159,8 +159,9 @@ func init() {
 			return fsym(t)
 		},
 		"strings.Fields": func(fr *frame, args []value) value {
-			var out []value
-			for _, f := range strings.Fields(args[0].(string)) {
+			fs := strings.Fields(args[0].(string))
+			out := make([]value, 0, len(fs)) // cap == len as in the real function: re-slicing past it panics
+			for _, f := range fs {
 				out = append(out, f)
 			}
 			return out
@@ -176,8 +177,9 @@ func init() {
 		},
 		"strings.TrimSpace": func(fr *frame, args []value) value { return strings.TrimSpace(args[0].(string)) },
 		"strings.Split": func(fr *frame, args []value) value {
-			var out []value
-			for _, f := range strings.Split(args[0].(string), args[1].(string)) {
+			fs := strings.Split(args[0].(string), args[1].(string))
+			out := make([]value, 0, len(fs))
+			for _, f := range fs {
 				out = append(out, f)
 			}
 			return out
